@@ -66,6 +66,16 @@ def _run_variant(args):
         _copy_repo(tmp, Path(src_root))
         base_keys, base_err = _finding_keys(str(tmp), v["rules"])
         applied = 0
+        if v.get("patch"):
+            # a unified diff (behaviour-preserving refactoring produced by an independent agent): applied with patch(1) to the copy
+            import subprocess
+
+            try:
+                pr = subprocess.run(["patch", "-p1", "-s", "-f", "-d", str(tmp), "-i", v["patch"]], capture_output=True, text=True)
+            except FileNotFoundError:
+                return {"name": v["name"], "status": "skipped", "why": "patch(1) not installed", "wall": time.time() - t0}
+            if pr.returncode != 0:
+                return {"name": v["name"], "status": "skipped", "why": "patch no longer applies to the current tree", "wall": time.time() - t0}
         for rel, old, new in v["edits"]:
             p = tmp / rel
             if not p.exists():
@@ -107,8 +117,22 @@ def run_variants(selected, jobs=16):
         return list(ex.map(_run_variant, [(v, src) for v in selected]))
 
 
+def benign_patches(prop=None):
+    """One benign variant per stored refactoring patch, checked with every rule of the property (or all rules)."""
+    from .registry import RULES
+
+    out = []
+    d = Path(__file__).resolve().parent.parent / "benign"
+    for f in sorted(d.glob("R*.diff")):
+        rules_ = [n for n, r in RULES.items() if (prop is None or prop in r["props"]) and r["tier"] == "quick"]
+        out.append({"name": f"benign-patch-{f.stem}", "props": [prop] if prop else [], "rules": rules_, "kind": "benign", "edits": [], "patch": str(f)})
+    return out
+
+
 def selftest_for_check(prop: str) -> dict:
-    sel = [v for v in VARIANTS if prop in v["props"]]
+    from . import rules  # noqa: F401
+
+    sel = [v for v in VARIANTS if prop in v["props"]] + benign_patches(prop)
     results = run_variants(sel)
     failed = [r for r in results if r["status"] == "FAILED"]
     for r in results:
@@ -124,7 +148,10 @@ def selftest_for_check(prop: str) -> dict:
 
 
 def run_selftest(prop=None, jobs=16, only=None) -> int:
+    from . import rules  # noqa: F401
+
     sel = [v for v in VARIANTS if (prop is None or prop in v["props"]) and (only is None or only in v["name"])]
+    sel += [v for v in benign_patches(prop) if only is None or only in v["name"]]
     t0 = time.time()
     results = run_variants(sel, jobs)
     bad = 0
